@@ -70,6 +70,67 @@ def locale_stage(rep, sc, rng):
     for f, l, m, what in sorted(bad, key=plain)[:6]:
         rep.finding('unlisted', dict(f.readable(), locale='LC_ALL=' + l, message=repr(m), what=what, stage='locale (real binary)',
                                      reproduce='LC_ALL=%s mdsort [-d] -f conf with: maildir "src" { %s }' % (l, f.readable()['rule'])))
+    st['unit'] = locale_unit_stage(rep, sc, rng, fams, refs)
+    return st
+
+
+def locale_unit_stage(rep, sc, rng, fams, refs):
+    """The same rules through the real parser and evaluator in-process (harness h_expr, which selects the locale of its environment
+    like main() does) under both locales: result, recorded sub-match offsets and the interpolated capture compared with the Lean
+    model run under the same LC_ALL (correspondence) and with the reference verdict and offsets (failing input)."""
+    import evalcommon as ec
+    import os
+    h, env = ec.harness(sc)
+    st = {'evaluations': 0, 'matching': 0, 'sub_matches_compared': 0, 'correspondence_mismatches': 0, 'disagreements': 0}
+    corr, bad = [], []
+    for l in mbtext.LOCALES:
+        cases, keys = [], []
+        for fi, f in enumerate(fams):
+            for k, m in f.msgs:
+                if rep.tier == 'quick' and rng.random() < 0.5:
+                    continue
+                lu = rng.choice(['', '', 'l', 'u'])
+                src = f.patb.decode('latin-1')
+                conf = 'maildir "~/md" {\n\tmatch header "Subject" /%s/%s move "~/dst/\\0"\n}\n' % (src, f.flags + lu)
+                c = ec.Case(conf, [(src, f.flags + lu)], m, 'new', '%d.host' % k, '0')
+                c.locale = l
+                cases.append(c)
+                keys.append((fi, k))
+        ec.run_cases(h, dict(env, LC_ALL=l), cases, want_spec=False, denv=dict(os.environ, LC_ALL=l))
+        st['evaluations'] += len(cases)
+        for c, key in zip(cases, keys):
+            if c.note == 'fault':
+                rep.finding('sanitizer-fault', dict(c.readable(), implementation=c.impl))
+                continue
+            ref = refs[l].get(key)
+            if c.model is None:
+                if ref is not None and not (c.impl or '').startswith('CONFERR'):
+                    bad.append((c, ['the harness gives no evaluation: %r' % (c.impl or '')[:80]]))
+                continue
+            if ec.impl_core(c) != ec.model_core(c):
+                corr.append(c)
+            if ref is None:
+                continue
+            e = c.impl.split(' ')
+            what = []
+            if (e[0] == 'MATCH') != ref[0]:
+                what.append('the evaluator says %s; regexec under LC_ALL=%s on the decoded value says %s' % (e[0], l, 'match' if ref[0] else 'no match'))
+            elif ref[0]:
+                hdr = [x for x in ec.parse_ml(e[1]) if x[0] == 'header']
+                subs = [None if t.split('/')[1] == '-' else (int(t.split('/')[1]), int(t.split('/')[2])) for t in hdr[0][6].split('+')] if hdr and hdr[0][6] else []
+                st['matching'] += 1
+                st['sub_matches_compared'] += len(subs)
+                if subs != ref[2]:
+                    what.append('recorded sub-matches %r, regexec gives %r on %r' % (subs, ref[2], ref[1]))
+            if what:
+                bad.append((c, what))
+    st['correspondence_mismatches'], st['disagreements'] = len(corr), len(bad)
+    for c, what in bad[:5]:
+        rep.finding('unlisted', dict(c.readable(), what=what, implementation=c.impl[:600], stage='locale (evaluator in-process)'))
+    if corr and not rep.violations:
+        rep.violation({'obligation': 'correspondence expr_eval_header/expr_regexec/match_copy <-> Model/Eval.lean under LC_ALL=C and C.utf8',
+                       'disagreements': len(corr),
+                       'examples': [dict(c.readable(), implementation=c.impl[:600], model=(c.model or '')[:600]) for c in corr[:4]]}, False)
     return st
 
 
@@ -101,11 +162,16 @@ def run(rep):
     nontriv = set(r for r, i, s in zip(reqs, impl, spec) if s is not None and r[0] == 'hget' and i.startswith('V'))
     multi = sum(1 for r, i in zip(reqs, impl) if r[0] == 'hget' and i.count(',') > 1)
     rep.coverage.update({
-        'evaluations': d.evals,
+        'evaluations': d.evals + 4 * lst['configurations'] + lst['unit']['evaluations'],
         'distinct_nontrivial': len(nontriv),
         'rule': '%d generated messages; 2 lookups each by a random name (any case) compared with the decoded logical values of the '
                 'line-based reading, 1 unfolding, 1 rewrite followed by a lookup; non-trivial = well-formed message and the field is '
-                'present; distinct by (name, message)' % n,
+                'present; distinct by (name, message); locale stage: %d single-rule configurations (`.`/intervals counting characters, bracket '
+                'expressions and classes with non-ASCII members, the i flag on non-ASCII letters, repeated multibyte characters) x %d messages '
+                '(raw 8-bit UTF-8 and Latin-1, B/Q encoded words, adjacent words cut inside a character, folded) on the real binary, real run '
+                'and -d, under LC_ALL=C and LC_ALL=C.utf8: moved = listed = the documented header condition with the platform regexec under '
+                'the same LC_ALL (Lean driver); the same rules through the real evaluator in-process under both locales against the model '
+                '(result, sub-match offsets, interpolated capture)' % (n, lst['configurations'], lst['messages_each']),
         'samples': [{'request': d.line(reqs[i])[:300], 'implementation': impl[i][:200], 'specification': (spec[i] or 'outside domain')[:200]}
                     for i in rng.sample(range(len(reqs)), 4)],
         'lookups_with_several_occurrences': multi,
